@@ -3,6 +3,7 @@
 #![allow(clippy::too_many_lines)]
 
 pub mod e1;
+pub mod e2;
 pub mod envmodel;
 pub mod evidence;
 pub mod known;
